@@ -110,6 +110,39 @@ func genInterpCase(id int, rng *RNG, prof *Profile) *interpCase {
 		}
 	}
 	ic.ast = g.genItems(0, 1+rng.Intn(prof.MaxItems))
+	if prof.Faults && prof.BreakN && rng.Chance(25) {
+		ic.ast = append(ic.ast, g.genTailLoop())
+	}
+	if prof.OKFlags && rng.Chance(12) {
+		// successive counter loops; the first loop's variable is read during and after the second
+		a, b := g.newVar("i"), g.newVar("i")
+		l1 := &Ast{K: "cloop", Var: a, Init: "0", InitLit: true, Op: "<", Lim: fmt.Sprint(2 + rng.Intn(2)), LimLit: true, Step: "++", Body: []*Ast{{K: "print", Path: a}}}
+		l2 := &Ast{K: "cloop", Var: b, Init: fmt.Sprint(5 + rng.Intn(3)), InitLit: true, Op: "<", Lim: "9", LimLit: true, Step: "++", Sep: ",", SepKw: "sep",
+			Body: []*Ast{{K: "print", Path: a}, {K: "text", Text: []byte(":")}, {K: "print", Path: b}}}
+		ic.ast = append(ic.ast, l1, &Ast{K: "text", Text: g.marker()}, l2, &Ast{K: "text", Text: g.marker()}, &Ast{K: "print", Path: a})
+		if g.budget < 8 {
+			g.budget = 8
+		}
+		g.tag("scenario:successive-loops-read-first-variable")
+	}
+	if prof.Includes && len(g.incs) > 0 && rng.Chance(15) {
+		// an included template left through exit inside a range loop, then further range loops
+		// (without separator) and text in the including template
+		sub := []*Ast{{K: "text", Text: g.marker()}, {K: "rloop", Var: g.newVar("v"), Src: "user.Finance.History", Body: []*Ast{{K: "text", Text: g.marker()}, {K: "exit"}}}, {K: "text", Text: g.marker()}}
+		src := printNodes(sub)
+		if key, dump, o := parseDump([]byte(src), false); o.ErrClass() == "OK" {
+			ic.incs = append(ic.incs, sub)
+			g.incs = append(g.incs, key)
+			ic.incIdx = append(ic.incIdx, len(ic.incs)-1)
+			vc.Reg[key] = dump
+			vc.RegKeys = append(vc.RegKeys, key)
+			vc.Meta["inc:"+key] = src
+			v2 := g.newVar("v")
+			ic.ast = append(ic.ast, &Ast{K: "include", IncKw: "include", Names: []string{key}}, &Ast{K: "text", Text: g.marker()},
+				&Ast{K: "rloop", Var: v2, Src: "user.Finance.History", Body: []*Ast{{K: "text", Text: g.marker()}, {K: "print", Path: v2 + ".DateUnix"}}}, &Ast{K: "text", Text: g.marker()})
+			g.tag("scenario:exit-in-included-range-loop")
+		}
+	}
 	vc.KeepFmt = prof.KeepFmt && rng.Bool()
 	if !vc.KeepFmt {
 		trimTail(ic.ast)
